@@ -167,6 +167,8 @@ def c16(pid, tier, seed):
     fams = [
         fam("tabs_single", W=40, H=6, D=4 if q else 5, BarOps=("set_tab_width", "set_style", "set_message", "set_prefix", "finish_with_message", "tick"),
             MsgShapes=("tab", "tt", "a"), Tpls=("TM", "KM", "PM"), TabWs=(8, 0, 4), Fins=("AndLeave",)),
+        fam("tabs_restyle", W=40, H=6, D=4 if q else 5, BarOps=("set_tab_width", "restyle", "set_style", "set_message", "tick"),
+            MsgShapes=("tab",), Tpls=("TM", "KC", "M"), TabWs=(8, 2), Fins=("AndLeave",)),
         fam("tabs_multi", W=40, H=12, Multi=True, MaxBars=2, D=4 if q else 5, BarOps=("set_tab_width", "set_style", "set_message", "abandon_with_message", "tick"),
             MsgShapes=("tab",), Tpls=("TM", "KM"), TabWs=(8, 1), Fins=("AndLeave",), shards=12),
     ]
@@ -215,7 +217,7 @@ def c18(pid, tier, seed):
     fams = [
         fam("faults_single", W=6, H=5, D=4 if q else 5, BarOps=("tick", "set_message", "println", "suspend", "finish", "finish_and_clear", "set_tab_width", "reset", "drop", "inc"),
             MsgShapes=("a", "W1"), TextShapes=("T",), Tpls=("MnC",), Fins=("AndLeave",), Faults=(1, 2, 3, 5, 8), M0="id"),
-        fam("faults_multi", W=6, H=8, Multi=True, MaxBars=2, Pre=2, D=5 if q else 6, BarOps=("tick", "set_message", "println", "suspend", "finish", "drop", "set_tab_width"),
+        fam("faults_multi", W=6, H=8, Multi=True, MaxBars=2, Pre=2, D=6 if q else 7, BarOps=("tick", "set_message", "println", "suspend", "finish", "drop", "set_tab_width"),
             MpOps=("mp_println", "mp_clear", "mp_suspend"), MsgShapes=("a",), TextShapes=("T",), Tpls=("M",), Fins=("AndLeave",), Faults=(1, 2, 4, 7), M0="id", shards=12),
     ]
     return screen_check(pid, tier, seed, fams,
@@ -275,10 +277,11 @@ def generic_check(pid, tier, seed, gens, driver, monitor, note, assumptions, lev
 def c09(pid, tier, seed):
     q = tier == "quick"
     allgaps = {1, 7, 1000, 15000, 3600000, 259200000}
-    gens = [("steady_e3", "MC_Estimator", dict(D=3 if q else 5, Mode="steady", GapMs=allgaps, StepSet={"1"}, RatePerMs=1), "bfs"),
-            ("steady_e6", "MC_Estimator", dict(D=3 if q else 4, Mode="steady", GapMs=allgaps, StepSet={"1"}, RatePerMs=1000), "bfs"),
-            ("free", "MC_Estimator", dict(D=3 if q else 4, Mode="free", GapMs={1, 1000, 15000, 259200000}, StepSet={"1", "e6", "e9"}, RatePerMs=1), "bfs"),
-            ("free_deep", "MC_Estimator", dict(D=14, Mode="free", GapMs=allgaps, StepSet={"1", "e3", "e6", "e9"}, RatePerMs=1), ("sim", 400 if q else 4000, 16))]
+    gens = [("steady_e3", "MC_Estimator", dict(D=3 if q else 5, Mode="steady", GapMs=allgaps, StepSet={"1"}, RatePerMs=1, BigStart=False), "bfs"),
+            ("steady_e6", "MC_Estimator", dict(D=3 if q else 4, Mode="steady", GapMs=allgaps, StepSet={"1"}, RatePerMs=1000, BigStart=False), "bfs"),
+            ("steady_big", "MC_Estimator", dict(D=3 if q else 4, Mode="steady", GapMs={1, 7, 1000, 15000}, StepSet={"1"}, RatePerMs=1, BigStart=True), "bfs"),
+            ("free", "MC_Estimator", dict(D=3 if q else 4, Mode="free", GapMs={1, 1000, 15000, 259200000}, StepSet={"1", "e6", "e9"}, RatePerMs=1, BigStart=False), "bfs"),
+            ("free_deep", "MC_Estimator", dict(D=14, Mode="free", GapMs=allgaps, StepSet={"1", "e3", "e6", "e9"}, RatePerMs=1, BigStart=False), ("sim", 400 if q else 4000, 16))]
     return generic_check(pid, tier, seed, gens, "est", "Trace_Estimator",
                          "timed histories of updates (gaps 1 ms .. 3 days, steps 1 .. 10^9), stalls, reset_eta/reset/backwards seeks, finish, unset_length with a query after every step; "
                          "laws: finite and non-negative, steady rate exact (1e-6), upper bound by the largest segment rate, monotone decay while stalled and below 1e-6 of the peak after ten minutes, "
@@ -429,6 +432,17 @@ def c05(pid, tier, seed):
                               replay={"driver": "api", "monitor": "Trace_Throttle", "rule": v["rule"], "history": {"h": 1, "cfg": h["cfg"], "ops": h["ops"][:v["i"]]}}))
     if stats.get("painted", 0) == 0 or stats.get("denied", 0) == 0 or stats.get("fresh", 0) == 0:
         raise vlib.ToolError("vacuous run: painted/denied/fresh clauses not all exercised: %s" % stats)
+    # "skipped draws lose nothing: the next painted frame shows the latest position, length and texts" for several bars behind one
+    # limited target is a statement about the whole frame: judged by the Screen contract on limited MultiProgress histories
+    latest = screen_check(pid, tier, seed, [
+        fam("latest_multi", W=6, H=12, Multi=True, MaxBars=2, Pre=2, D=6 if q else 7, BarOps=("burst", "set_message", "inc", "set_length", "tick"), MpOps=(),
+            MsgShapes=("a", "W1"), Tpls=("MnC",), Fins=("AndLeave",), Hz=2, DTs=(0, 600000), M0="id", shards=12)], "")
+    states += latest["coverage"]["states"]
+    trans += latest["coverage"]["transitions"]
+    nh += latest["coverage"]["traces_validated_against_impl"]
+    nrec += latest["coverage"]["records_validated"]
+    fams += latest["coverage"]["families"]
+    fails += latest["failures"]
     fails.sort(key=lambda x: x["n"])
     coverage = dict(states=states, transitions=trans, traces_validated_against_impl=nh, records_validated=nrec, samples=samples, clause_counts=stats,
                     families=fams, design_level=design, rates=rates,
